@@ -20,9 +20,10 @@ var shapes = []string{
 	"calleeOfTarget", "deferArgLitInRoot", "goArgLitInRoot", "widening", "typeSwitchWiden",
 }
 
-// shapes that are known findings (F8): kept rare and keyed by their root cause
+// shapes that are an open known finding (F8, interface widening): kept rare and keyed by their root cause.
+// The Defer/Go argument shapes (deferArg, goArg, …LitInRoot) were findings until repository commit 3c101cd;
+// they are ordinary shapes now (regression cases).
 var knownBadShapes = map[string]string{
-	"deferArg": "Defer.Args", "goArg": "Go.Args", "deferArgLitInRoot": "Defer.Args", "goArgLitInRoot": "Go.Args",
 	"widening": "widening", "typeSwitchWiden": "widening",
 }
 
